@@ -139,6 +139,30 @@ def _solve_idx(args):
     return _solve((i, qf, full, t_qf, t_full, want_model, use_cli))
 
 
+def pmap(fn, jobs, procs, on_crash, job_timeout=None):
+    """Parallel map that survives the death of a worker process (a crashing solver must not hang the check): jobs whose
+    worker died are retried alone; a job that kills its worker again (or exceeds job_timeout alone) gets on_crash(job)."""
+    from concurrent.futures import ProcessPoolExecutor, as_completed
+    ctx = mp.get_context("fork")
+    results = [None] * len(jobs)
+    retry = []
+    with ProcessPoolExecutor(max_workers=procs, mp_context=ctx) as ex:
+        futs = {ex.submit(fn, j): i for i, j in enumerate(jobs)}
+        for f in as_completed(futs):
+            i = futs[f]
+            try:
+                results[i] = f.result()
+            except BaseException:   # noqa  (BrokenProcessPool and whatever the job raised)
+                retry.append(i)
+    for i in retry:
+        try:
+            with ProcessPoolExecutor(max_workers=1, mp_context=ctx) as ex:
+                results[i] = ex.submit(fn, jobs[i]).result(timeout=job_timeout)
+        except BaseException:       # noqa
+            results[i] = on_crash(jobs[i])
+    return results
+
+
 def discharge(cxs, t_qf=5000, t_full=30000, procs=None, use_cli=True, want_model=True):
     """cxs: list of FnCtx.  Sets status/solver/time on each obligation."""
     global _WORK
@@ -150,9 +174,8 @@ def discharge(cxs, t_qf=5000, t_full=30000, procs=None, use_cli=True, want_model
     if procs <= 1 or len(jobs) == 1:
         results = [_solve_idx(j) for j in jobs]
     else:
-        ctx = mp.get_context("fork")
-        with ctx.Pool(procs) as pool:
-            results = pool.map(_solve_idx, jobs, chunksize=1)
+        results = pmap(_solve_idx, jobs, procs, lambda j: (j[0], "error", "none", 0.0, "solver process died", None),
+                       job_timeout=(t_qf + 5 * t_full) / 1000 + 120)
     for i, status, solver, t, reason, model in results:
         o = _WORK[i][1]
         o.status, o.solver, o.time, o.reason, o.model = status, solver, t, reason, model
